@@ -899,6 +899,8 @@ class Gen:
         choices = ["op"] * 6 + ["load", "order", "order"]
         if self.callable_funcs(r):
             choices += ["call"] * (20 if self.flags.get("call_bias") else 5)
+            if self.flags.get("call_bias"):
+                choices += ["order"] * 8
         depth = 0
         cur = r
         while cur.parent is not None:
